@@ -18,11 +18,16 @@ Statements (for every graph, every `keep`, every fuel for which the model termin
                          a key of the returned graph.
 The two hypotheses are evaluated by the driver on every real graph (`topoOK`, `selfOK`: always true there);
 `topo_of_topoOK` / `self_of_selfOK` connect the Boolean tests to the propositions.
+* `optimizeGroups_fuel_mono`  a result does not change when either fuel is increased (the result is the result of the
+                         unbounded loops whenever they terminate).
+* `fuse_roots_merges_sound`  (`fuse_roots`) every merge joins a Blockwise consumer with ALL its ≥ 2 dependencies, each of which
+                         is used by this consumer only (so deleting those layers loses no key another layer needs) and carries
+                         the consumer's annotations.
 Not proved: that `defaultFuel` suffices on acyclic graphs (the harness reports an exhausted fuel as a disagreement; on a
 cyclic graph the Python loop itself does not terminate); the order-independence of the result (validated: the model walks
 in one fixed order, Python in its set order, the groups agree on every generated graph).
 -/
-import DaskModel.Lemmas.OptBW
+import DaskModel.Lemmas.OptBW2
 namespace Dask.C10x
 open Dask.OptBW
 
@@ -106,6 +111,36 @@ theorem optimize_blockwise_keeps_outputs {g : Graph} {keep : List Nat} {cfg : Bo
   by_cases hr : k = G.root
   · exact hr.symm
   · exact absurd hk (fusion_group_sound h hG hm hr).2.1
+
+/-- more fuel, same groups -/
+theorem optimizeGroups_fuel_mono {g : Graph} {keep : List Nat} {cfg : Bool} {fo fi : Nat} {gs : List Group}
+    (h : optimizeGroups g keep cfg fo fi = some gs) (a b : Nat) : optimizeGroups g keep cfg (fo + a) (fi + b) = some gs := by
+  unfold optimizeGroups at h ⊢
+  obtain ⟨st, hst, rfl⟩ := Option.map_eq_some_iff.mp h
+  rw [outerLoop_mono b a fo _ _ hst]
+  rfl
+
+/-- **fuse_roots**: every merge joins a Blockwise consumer with all its (at least two) dependencies, each used by this
+    consumer only and annotated like it. -/
+theorem fuse_roots_merges_sound {g : Graph} {order : List Nat} {r : RSt}
+    (h : fuseRoots g order { gone := [], cleared := [], fusedR := [] } = some r) :
+    ∀ p ∈ r.fusedR, MergeOK g p :=
+  fuseRoots_spec order _ _ h (by simp)
+
+/-- two leaves under a Blockwise consumer, a third leaf and a second consumer on top: both merges happen in ONE walk (the
+    first merge resets the consumer's dependencies), in this iteration order … -/
+def exRoots : Graph := [
+  { bw := false, deps := [], conc := 0, ann := 0, annKeys := [], outInd := [], indices := [] },
+  { bw := false, deps := [], conc := 0, ann := 0, annKeys := [], outInd := [], indices := [] },
+  { bw := true, deps := [0, 1], conc := 0, ann := 0, annKeys := [], outInd := [0], indices := [(0, some [0]), (1, some [0])] },
+  { bw := false, deps := [], conc := 0, ann := 0, annKeys := [], outInd := [], indices := [] },
+  { bw := true, deps := [2, 3], conc := 0, ann := 0, annKeys := [], outInd := [0], indices := [(2, some [0]), (3, some [0])] }]
+
+example : (fuseRoots exRoots [0, 1, 2, 3, 4] { gone := [], cleared := [], fusedR := [] }).map (·.fusedR) =
+    some [(2, [0, 1]), (4, [2, 3])] := by decide
+/-- … but only the lower one when the upper consumer is visited first -/
+example : (fuseRoots exRoots [4, 3, 2, 1, 0] { gone := [], cleared := [], fusedR := [] }).map (·.fusedR) =
+    some [(2, [0, 1])] := by decide
 
 /-! ### non-vacuity: concrete graphs on which the model terminates and the hypotheses hold -/
 
